@@ -185,7 +185,11 @@ def coq_property(prop_id, relevant_gens=None):
     else:
         # count theorems before the failing line (the file is checked top to bottom)
         m = re.search(r'File "[^"]*%s", line (\d+)' % re.escape(os.path.basename(rel)), o + e)
-        if m:
+        if b.get('failed') and not b['failed'].startswith('Properties/'):
+            # a lemma file the property rests on no longer compiles
+            res['failed'] = 'LV.' + b['failed'].replace('/', '.').replace('.v:', ' (line ') + ')'
+            res['discharged'] = 0
+        elif m:
             ln = int(m.group(1))
             upto = '\n'.join(text.split('\n')[:ln - 1])
             done = re.findall(r'^\s*Theorem\s+(\w+)', upto, flags=re.M)
